@@ -772,7 +772,7 @@ pub fn generate(tier: &str, rng: &mut Rng) -> Vec<String> {
     }
 
     // ---- accessors and iterators over arbitrary received header maps
-    let na = if thorough { 80000 } else { 5000 };
+    let na = if thorough { 240000 } else { 5000 };
     for i in 0..na {
         let es = gen_entries(rng, 6);
         if i % 3 == 0 {
@@ -785,7 +785,7 @@ pub fn generate(tier: &str, rng: &mut Rng) -> Vec<String> {
         }
     }
     // ---- typed operation sequences
-    let no = if thorough { 40000 } else { 3000 };
+    let no = if thorough { 120000 } else { 3000 };
     for _ in 0..no {
         let n = rng.range(1, 7);
         let mut toks = vec![format!("ops {}", n)];
@@ -860,7 +860,7 @@ pub fn generate(tier: &str, rng: &mut Rng) -> Vec<String> {
         }
         out.push(toks.join(" "));
     }
-    let ne = if thorough { 40000 } else { 2500 };
+    let ne = if thorough { 120000 } else { 2500 };
     for _ in 0..ne {
         let mode = *rng.pick(&["ok", "ok", "err", "sserr", "umix"]);
         let code = if mode == "err" || mode == "umix" { rng.range(1, 16) } else { rng.below(17) };
